@@ -58,6 +58,25 @@ package store
 // and a refusal leaves the stored alerts untouched; otherwise exactly the entry for the alert's fingerprint is
 // (over)written. Re-sends of an alert already counted in its name's bucket are always accepted, and an accepted
 // alert is counted in its name's bucket with its current end time as expiry.
+//@ func (*Alerts).set
+//@   props C03 C05 C13 C14 C18
+//@   requires a != nil && alert != nil && a.alerts != nil && ErrDestroyed != nil && ErrLimited != nil && bucketOK(a, nameOf(alert))
+//@   ensures [destroyed] old(a.destroyed) ==> result == ErrDestroyed && dom(a.alerts) == old(dom(a.alerts)) && vals(a.alerts) == old(vals(a.alerts))
+//@   ensures [stored] result == nil ==> dom(a.alerts) == setadd(old(dom(a.alerts)), fpA(alert)) && vals(a.alerts) == upd(old(vals(a.alerts)), fpA(alert), alert)
+//@   ensures [refused-unchanged] result != nil ==> dom(a.alerts) == old(dom(a.alerts)) && vals(a.alerts) == old(vals(a.alerts))
+//@   ensures [unlimited] !old(a.destroyed) && a.perAlertLimit <= 0 ==> result == nil
+//@   ensures [refusal-kinds] result != nil ==> (old(a.destroyed) && result == ErrDestroyed) || (!old(a.destroyed) && a.perAlertLimit > 0 && result == ErrLimited)
+//@   ensures [resend-accepted] !old(a.destroyed) && a.perAlertLimit > 0 && old(nameOf(alert) in a.limits) && old(fpA(alert) in a.limits[nameOf(alert)].index) ==> result == nil
+//@   ensures [bucket-tracks] result == nil && a.perAlertLimit > 0 ==> nameOf(alert) in a.limits && fpA(alert) in a.limits[nameOf(alert)].index
+//@             && a.limits[nameOf(alert)].index[fpA(alert)].priority == alert.EndsAt
+//@   ensures [limited-means-full] result != nil && !old(a.destroyed) ==> nameOf(alert) in a.limits && len(a.limits[nameOf(alert)].items) >= a.perAlertLimit
+//@             && !(fpA(alert) in a.limits[nameOf(alert)].index) && a.limits[nameOf(alert)].items[0].priority >= clock()
+//@   ensures [fields] a.destroyed == old(a.destroyed) && a.alerts == old(a.alerts) && a.limits == old(a.limits) && a.perAlertLimit == old(a.perAlertLimit)
+//@   ensures [bucket] bucketOK(a, nameOf(alert))
+//@   ensures [other-buckets] forall n string :: n != nameOf(alert) ==> (n in a.limits) == old(n in a.limits) && a.limits[n] == old(a.limits[n])
+//@   assigns a.alerts[*], a.limits[*], heap:MD$map[V]*limit.item, heap:MV$map[V]*limit.item, heap:A$*limit.item, heap:H$limit.item, heap:H$limit.Bucket
+
+
 //@ func (*Alerts).Set
 //@   props C03 C05 C13 C14 C18
 //@   requires a != nil && alert != nil && a.alerts != nil && ErrDestroyed != nil && ErrLimited != nil && bucketOK(a, nameOf(alert))
@@ -74,6 +93,25 @@ package store
 //@   ensures [fields] a.destroyed == old(a.destroyed) && a.alerts == old(a.alerts) && a.limits == old(a.limits) && a.perAlertLimit == old(a.perAlertLimit)
 //@   ensures [bucket] bucketOK(a, nameOf(alert))
 //@   ensures [other-buckets] forall n string :: n != nameOf(alert) ==> (n in a.limits) == old(n in a.limits) && a.limits[n] == old(a.limits[n])
+//@   assigns a.alerts[*], a.limits[*], heap:MD$map[V]*limit.item, heap:MV$map[V]*limit.item, heap:A$*limit.item, heap:H$limit.item, heap:H$limit.Bucket
+
+
+// C14: the sufficient condition that makes "most recently submitted version wins" independent of how ingestion
+// work is scheduled: a stored version with a more recent UpdatedAt is never replaced; otherwise as Set.
+//@ func (*Alerts).SetIfNotOlder
+//@   props C14 C05 C06
+//@   requires a != nil && alert != nil && a.alerts != nil && ErrDestroyed != nil && ErrLimited != nil && bucketOK(a, nameOf(alert))
+//@   requires forall f model.Fingerprint :: f in a.alerts ==> a.alerts[f] != nil
+//@   ensures [never-older] old(fpA(alert) in a.alerts) && old(a.alerts[fpA(alert)].UpdatedAt) > alert.UpdatedAt
+//@             ==> result == nil && dom(a.alerts) == old(dom(a.alerts)) && vals(a.alerts) == old(vals(a.alerts))
+//@   ensures [monotone] forall f model.Fingerprint :: old(f in a.alerts) ==> f in a.alerts && a.alerts[f].UpdatedAt >= old(a.alerts[f].UpdatedAt)
+//@   ensures [stored] result == nil && !(old(fpA(alert) in a.alerts) && old(a.alerts[fpA(alert)].UpdatedAt) > alert.UpdatedAt)
+//@             ==> dom(a.alerts) == setadd(old(dom(a.alerts)), fpA(alert)) && vals(a.alerts) == upd(old(vals(a.alerts)), fpA(alert), alert)
+//@   ensures [refused-unchanged] result != nil ==> dom(a.alerts) == old(dom(a.alerts)) && vals(a.alerts) == old(vals(a.alerts))
+//@   ensures [refusal-kinds] result != nil ==> (old(a.destroyed) && result == ErrDestroyed) || (!old(a.destroyed) && a.perAlertLimit > 0 && result == ErrLimited)
+//@   ensures [destroyed] old(a.destroyed) && !(old(fpA(alert) in a.alerts) && old(a.alerts[fpA(alert)].UpdatedAt) > alert.UpdatedAt) ==> result == ErrDestroyed
+//@   ensures [fields] a.destroyed == old(a.destroyed) && a.alerts == old(a.alerts)
+//@   ensures [nonnil] forall f model.Fingerprint :: f in a.alerts ==> a.alerts[f] != nil
 //@   assigns a.alerts[*], a.limits[*], heap:MD$map[V]*limit.item, heap:MV$map[V]*limit.item, heap:A$*limit.item, heap:H$limit.item, heap:H$limit.Bucket
 
 // C18: a bucket is dropped only when every alert counted in it has expired ("room is made only by expiry").
@@ -96,7 +134,24 @@ package store
 //@   ensures [complete] forall f model.Fingerprint :: f in a.alerts ==> (exists i int :: 0 <= i && i < len(result) && result[i] == a.alerts[f])
 //@   ensures [sound] forall i int :: 0 <= i && i < len(result) ==> (exists f model.Fingerprint :: f in a.alerts && result[i] == a.alerts[f])
 //@   ensures [fresh] fresh(result)
+//@   ensures [nonnil] (forall f model.Fingerprint :: f in a.alerts ==> a.alerts[f] != nil) ==> (forall i int :: 0 <= i && i < len(result) ==> result[i] != nil)
 //@   loop 1 invariant fresh(alerts)
 //@   loop 1 invariant forall f model.Fingerprint :: f in visited ==> (exists i int :: 0 <= i && i < len(alerts) && alerts[i] == a.alerts[f])
 //@   loop 1 invariant forall i int :: 0 <= i && i < len(alerts) ==> (exists f model.Fingerprint :: f in a.alerts && alerts[i] == a.alerts[f])
+//@   assigns nothing
+
+//@ func (*Alerts).Empty
+//@   props C05 C06
+//@   requires a != nil
+//@   ensures result == (len(a.alerts) == 0)
+//@   assigns nothing
+//@ func (*Alerts).Destroyed
+//@   props C05 C06
+//@   requires a != nil
+//@   ensures result == a.destroyed
+//@   assigns nothing
+//@ func (*Alerts).Len
+//@   props C05 C06
+//@   requires a != nil
+//@   ensures result == len(a.alerts)
 //@   assigns nothing
